@@ -1,1 +1,30 @@
-from mc.props.c17_classic import CLAUSES; LEVEL="exploration"; from mc.props.c17_classic import explore_classic as explore
+"""C17 - built-in environments realise their Gymnasium reference MDPs.
+
+Combined module: the classic-control half (mc/props/c17_classic.py, signatures C17/classic/...) and the
+MuJoCo half (mc/props/c17_mujoco.py, signatures C17/mujoco/<Env>/...).  Both halves append to
+ctx.rule / ctx.assumptions / ctx.notes and register their own vacuity guards; worker processes of the
+MuJoCo half import this module and look their clause up in CLAUSES.
+"""
+
+from __future__ import annotations
+
+from mc.core import Ctx
+from mc.props import c17_classic, c17_mujoco
+
+LEVEL = "exploration"
+CLAUSES = {**c17_classic.CLAUSES, **c17_mujoco.CLAUSES}
+
+
+def explore(ctx: Ctx):
+    import os
+
+    half = os.environ.get("VERIF_C17_HALF", "")  # development switch only: "classic" | "mujoco"; default runs both
+    if half not in ("", "classic", "mujoco"):
+        raise ValueError(f"VERIF_C17_HALF={half!r}")
+    if half in ("", "classic"):
+        c17_classic.explore_classic(ctx)
+    if half in ("", "mujoco"):
+        c17_mujoco.explore_mujoco(ctx)
+    if half:
+        ctx.notes["half_only"] = half
+        ctx.exhaustive = False
